@@ -30,11 +30,16 @@ CLAIMS = {
   "note": "Trusted: std::thread, rayon, oneshot, crossbeam. Scope is an over-approximated call graph (trait calls expand to all workspace impls). Not decided: that a new writer can continue after a failure; storage content after a fault.",
   "technique": "value-fate dataflow over MIR for Result-typed call results, reachability over the resolved call graph, dominance / must-pass path rules",
  },
+ "C16": {
+  "text": "Decides the totality clause: enumerates every panicking construct (explicit panics/asserts/unreachable, unwrap/expect, indexing and panicking std APIs, overflow/division asserts from MIR) in the ~290 bodies of the parser's source files reachable from parse_query / parse_query_lenient / QueryParser entry points, and requires the set to equal a frozen table in which each of the 29 sites carries the reason it cannot fire; and computes the call-graph cycles of that scope — all ten recurse over input nesting without a depth bound (known finding F6, stack overflow demonstrated).",
+  "note": "Trusted: nom, regex, tokenizers and Term/date/ip builders called from the parser (outside the scope). Not decided: that the parse result means what the grammar documents; strict/lenient agreement.",
+  "technique": "panic inventory over MIR (Assert terminators + panicking callees) on the reachable call graph, SCC recursion analysis",
+ },
 }
 NA = {
  "C13": "quantifies over values returned by arbitrary advance/seek programs on stateful iterators; failures are arithmetic; the only structural statement (wrapper forwarding) is not a necessary condition, so no sound static rule is in reach",
  "C14": "aggregation results are run-time numeric values (bucket arithmetic, float sums, sketches); structural parts are already enforced by derive and the compiler",
 }
 # properties not yet claimed (checks under construction) are listed as not applicable *for now*
-for _p, _why in {'C02': 'check under construction in this session (rules designed in DESIGN.md section 4; not yet registered)', 'C03': 'check under construction in this session (rules designed in DESIGN.md section 4; not yet registered)', 'C04': 'check under construction in this session (rules designed in DESIGN.md section 4; not yet registered)', 'C06': 'check under construction in this session (rules designed in DESIGN.md section 4; not yet registered)', 'C07': 'check under construction in this session (rules designed in DESIGN.md section 4; not yet registered)', 'C08': 'check under construction in this session (rules designed in DESIGN.md section 4; not yet registered)', 'C09': 'check under construction in this session (rules designed in DESIGN.md section 4; not yet registered)', 'C12': 'check under construction in this session (rules designed in DESIGN.md section 4; not yet registered)', 'C15': 'check under construction in this session (rules designed in DESIGN.md section 4; not yet registered)', 'C16': 'check under construction in this session (rules designed in DESIGN.md section 4; not yet registered)', 'C17': 'check under construction in this session (rules designed in DESIGN.md section 4; not yet registered)', 'C19': 'check under construction in this session (rules designed in DESIGN.md section 4; not yet registered)', }.items():
+for _p, _why in {'C02': 'check under construction in this session (rules designed in DESIGN.md section 4; not yet registered)', 'C03': 'check under construction in this session (rules designed in DESIGN.md section 4; not yet registered)', 'C04': 'check under construction in this session (rules designed in DESIGN.md section 4; not yet registered)', 'C06': 'check under construction in this session (rules designed in DESIGN.md section 4; not yet registered)', 'C07': 'check under construction in this session (rules designed in DESIGN.md section 4; not yet registered)', 'C08': 'check under construction in this session (rules designed in DESIGN.md section 4; not yet registered)', 'C09': 'check under construction in this session (rules designed in DESIGN.md section 4; not yet registered)', 'C12': 'check under construction in this session (rules designed in DESIGN.md section 4; not yet registered)', 'C15': 'check under construction in this session (rules designed in DESIGN.md section 4; not yet registered)', 'C17': 'check under construction in this session (rules designed in DESIGN.md section 4; not yet registered)', 'C19': 'check under construction in this session (rules designed in DESIGN.md section 4; not yet registered)', }.items():
     NA[_p] = _why
